@@ -305,7 +305,7 @@ pub fn run(ctx: &Ctx) -> (Stats, Report) {
     st.merge(s);
     st.exhaustive_sections.push("all seconds of the day x {0,1,999999} us through JSON and bincode".into());
     for kind in [Kind::Ts, Kind::Ora, Kind::YM, Kind::DT, Kind::Time, Kind::Date] {
-        let vals = pools::pool(kind, seed, if ctx.thorough { 2_000_000 } else { 150_000 });
+        let vals = pools::pool(kind, seed, if ctx.thorough { 6_000_000 } else { 150_000 });
         let vref = &vals;
         let s = par_sweep(vals.len() as u64, 2048, |range, st| {
             for k in range {
@@ -343,7 +343,7 @@ pub fn run(ctx: &Ctx) -> (Stats, Report) {
         let width_min = if matches!(kind, Kind::Date | Kind::YM) { i32::MIN as i128 } else { i64::MIN as i128 };
         let width_max = if matches!(kind, Kind::Date | Kind::YM) { i32::MAX as i128 } else { i64::MAX as i128 };
         let mut sm = SplitMix(seed ^ 0x15 ^ kind.index() as u64);
-        for k in 0..(if ctx.thorough { 8_000_000 } else { 400_000 }) {
+        for k in 0..(if ctx.thorough { 40_000_000 } else { 400_000 }) {
             payloads.push(match k % 3 {
                 0 => sm.range_i128(width_min, width_max),
                 1 => sm.range_i128((lo - (hi - lo) / 4).max(width_min), (hi + (hi - lo) / 4).min(width_max)),
